@@ -33,6 +33,7 @@ func main() {
 			fsmx.ExitProduct(do, "E", true)
 			// pairs of sessions of every kind sharing (or not) local AS and cluster id; one flaps, the other stays
 			fsmx.PairProduct(do)
+			fsmx.PolicyProduct(do)
 		},
 	})
 }
